@@ -83,7 +83,8 @@ func (X *Exec) validity(st *State, t *Term, T types.Type, depth int) *Term {
 	case *types.Slice:
 		arr, off, ln, cp := ts.Sel(t, 0), ts.Sel(t, 1), ts.Sel(t, 2), ts.Sel(t, 3)
 		z := ts.IntLit(0)
-		return ts.And(ts.Le(z, off), ts.Le(z, ln), ts.Le(ln, cp), ts.Le(z, arr),
+		maxInt := ts.BigLit(new(big.Int).Sub(new(big.Int).Lsh(big.NewInt(1), 63), big.NewInt(1)))
+		return ts.And(ts.Le(z, off), ts.Le(z, ln), ts.Le(ln, cp), ts.Le(cp, maxInt), ts.Le(z, arr),
 			ts.Implies(ts.Eq(arr, z), ts.And(ts.Eq(cp, z), ts.Eq(off, z))),
 			ts.Implies(ts.Not(ts.Eq(arr, z)), ts.Select(X.allocArr(st), arr)))
 	case *types.Pointer, *types.Map, *types.Chan:
